@@ -14,7 +14,12 @@ import (
 	"github.com/yandex/pandora/core/aggregator/netsample"
 )
 
-// kind=sinkfail agg=phout|jsonlines n=<N> limit=<bytes, smaller than one line>
+// kind=sinkfail agg=phout|jsonlines n=<N> limit=<bytes, smaller than one line> [q=<Q>] [closeerr=1]
+//
+//	q=<Q>       (jsonlines) the queue holds Q samples: the N reports are made before Run starts, so exactly N-min(N,Q)
+//	            of them are dropped — a known number of drops that coincides with the failing final flush
+//	closeerr=1  the sink's Close fails too (after closing)
+//	limit=none  the sink accepts everything (only the drops and/or the close error are there)
 //
 // A sink that accepts `limit` bytes and then rejects every write (disk full), in the one situation where what the
 // aggregator does is fully determined: all N samples are queued before Run starts, nothing is flushed before the
@@ -24,24 +29,41 @@ import (
 // (Model/C06SinkFail.lean) predicts all of it; a run that took long enough for phout's ticker to fire is inconclusive.
 func runSinkFail(kv map[string]string) string {
 	agg, n, limit := kv["agg"], atoi(kv["n"]), atoi(kv["limit"])
-	if n < 0 || n > 1000 || limit < 0 || limit > 20 {
+	if kv["limit"] == "none" {
+		limit = 1 << 40
+	} else if limit < 0 || limit > 20 {
 		return "err=bad-input"
 	}
+	if n < 0 || n > 1000 {
+		return "err=bad-input"
+	}
+	q := n + 1
+	if kv["q"] != "" {
+		q = atoi(kv["q"])
+		if q < 1 || agg != "jsonlines" {
+			return "err=bad-input"
+		}
+	}
+	var cerr error
+	if kv["closeerr"] == "1" {
+		cerr = errSinkClose
+	}
+	coincide := kv["q"] != "" || cerr != nil || kv["limit"] == "none"
 	var run func(ctx context.Context) error
 	var report func(i int)
-	var fsink *failSink
+	var fsink func() *failSink
 	switch agg {
 	case "phout":
 		conf := netsample.DefaultPhoutConfig()
 		conf.Destination = "phout.log"
 		conf.ID = true
 		conf.SampleQueueSize = n + 1
-		fs := &failFs{Fs: afero.NewMemMapFs(), limit: limit}
+		fs := &failFs{Fs: afero.NewMemMapFs(), limit: limit, closeErr: cerr}
 		a, err := netsample.NewPhout(fs, conf)
 		if err != nil {
 			return "err=new:" + drv_clean(err.Error())
 		}
-		fsink = fs.file
+		fsink = func() *failSink { return fs.file }
 		run = func(ctx context.Context) error { return a.Run(ctx, core.AggregatorDeps{Log: zap.NewNop()}) }
 		report = func(i int) {
 			var f [10]int64
@@ -52,9 +74,10 @@ func runSinkFail(kv map[string]string) string {
 		}
 	case "jsonlines":
 		conf := aggregator.DefaultJSONLinesAggregatorConfig()
-		fsink = &failSink{trackFile: &trackFile{}, limit: limit}
-		conf.Sink = &failMemSink{fsink}
-		conf.ReporterConfig.SampleQueueSize = n + 1
+		fk := &failSink{trackFile: &trackFile{closeErr: cerr}, limit: limit}
+		fsink = func() *failSink { return fk }
+		conf.Sink = &failMemSink{fk}
+		conf.ReporterConfig.SampleQueueSize = q
 		conf.FlushInterval = 0
 		a := aggregator.NewJSONLinesAggregator(conf)
 		run = func(ctx context.Context) error { return a.Run(ctx, core.AggregatorDeps{Log: zap.NewNop()}) }
@@ -96,13 +119,34 @@ func runSinkFail(kv map[string]string) string {
 	if time.Since(t0) > 400*time.Millisecond {
 		return "inconclusive=slow" // phout's 1 s ticker may have fired in between
 	}
-	_, closedOK := fsink.trackFile.snapshot()
+	fk := fsink()
+	if fk == nil {
+		// the destination was never created (lazily opened, no sample): nothing written, nothing to close
+		errS, _ := errPartsString(runErr)
+		return fmt.Sprintf("err=%s closed=1 failed=0 accepted=0", errS)
+	}
+	data, closedOK := fk.trackFile.snapshot()
 	errS, _ := runErrString(runErr)
 	if errS != "nil" && len(errS) > 5 && errS[:5] == "other" {
 		errS = "other"
 	}
-	fsink.mu2.Lock()
-	failed, taken := fsink.fails > 0, fsink.taken
-	fsink.mu2.Unlock()
+	fk.mu2.Lock()
+	failed, taken := fk.fails > 0, fk.taken
+	fk.mu2.Unlock()
+	if coincide {
+		// coinciding faults: the members of Run's error in order, the drop count it carries, the lines that got through
+		errS, dropped := errPartsString(runErr)
+		lines := 0
+		for _, c := range data {
+			if c == '\n' {
+				lines++
+			}
+		}
+		acc := "all"
+		if failed {
+			acc = strconv.Itoa(taken)
+		}
+		return fmt.Sprintf("err=%s closed=%d failed=%d accepted=%s dropped=%d lines=%d", errS, b2i(closedOK), b2i(failed), acc, dropped, lines)
+	}
 	return fmt.Sprintf("err=%s closed=%d failed=%d accepted=%d", errS, b2i(closedOK), b2i(failed), taken)
 }
